@@ -206,6 +206,9 @@ def check_recorder(model, rep):
 
 
 def check(model, rep):
+    # hidden state Python keeps outside the objects (not modelled by the evaluator): reported before anything else is evaluated
+    from checks.solver_common import package_lints as _package_lints
+    _package_lints(model, rep, 'C02.hidden-state', ('/solver.py', '/powertrain.py', '/dc_motor.py'))
     from checks.solver_common import absorb_arith, TIME_ARITH, EULER_ARITH, KIN_ARITH, TORQUE_ARITH
     absorb_arith(model, rep, 'C02.dep.arith', TORQUE_ARITH, solver_log=True)
     rep.explain('C02: on the solver IR (event structure over E[0..n-1]) every instant context must contain: the motor '
